@@ -262,12 +262,18 @@ func (p *Prog) VerifyFunction(fn *ssa.Function, fc *FuncContract, split *int, wa
 		for _, pe := range fc.Preserves {
 			ec := &EvalCtx{e: e, st: st, old: fr.oldSt, bind: pbind, spec: fc.Spec}
 			t, err := ec.evalModTarget(pe)
+			if err != nil && mentionsLocal(fn, pe) {
+				// a local of the body: evaluated at each havoc, once the local exists
+				e.deferredPres = append(e.deferredPres, deferredPreserve{expr: pe, fr: fr, bind: pbind, spec: fc.Spec})
+				e.assumedUsed["preserves clause of "+e.Unit+": callees with an unbounded frame cannot reach "+specString(pe)] = true
+				continue
+			}
 			if err != nil {
 				e.failed = fmt.Errorf("%s:%d: preserves: %v", fc.File, fc.Line, err)
 				return e
 			}
-			if t.kind != "loc" && t.kind != "elems" && t.kind != "map" {
-				e.failed = fmt.Errorf("%s:%d: preserves: only *p, x.f, elems(s) and mapc(m) are supported", fc.File, fc.Line)
+			if t.kind != "loc" && t.kind != "elems" && t.kind != "map" && t.kind != "ghostvar" {
+				e.failed = fmt.Errorf("%s:%d: preserves: only *p, x.f, elems(s), mapc(m) and ghost variables are supported", fc.File, fc.Line)
 				return e
 			}
 			e.preserved = append(e.preserved, t)
@@ -621,4 +627,41 @@ func propTags(tags []string, dflt string) []string {
 		}
 	}
 	return out
+}
+
+type deferredPreserve struct {
+	expr SExpr
+	fr   *Frame
+	bind map[string]TV
+	spec *SpecFile
+}
+
+// mentionsLocal reports whether the expression names a local variable of fn.
+func mentionsLocal(fn *ssa.Function, x SExpr) bool {
+	found := false
+	var walk func(SExpr)
+	walk = func(x SExpr) {
+		switch t := x.(type) {
+		case *SIdent:
+			for _, b := range fn.Blocks {
+				for _, in := range b.Instrs {
+					if a, ok := in.(*ssa.Alloc); ok && a.Comment == t.Name {
+						found = true
+					}
+				}
+			}
+		case *SUnary:
+			walk(t.X)
+		case *SSelector:
+			walk(t.X)
+		case *SIndex:
+			walk(t.X)
+		case *SCall:
+			for _, a := range t.Args {
+				walk(a)
+			}
+		}
+	}
+	walk(x)
+	return found
 }
